@@ -166,6 +166,88 @@ func batchPointProbe(r *kit.Rng, pk string, al Alphabets) []*Op {
 	return probe
 }
 
+// pairTags: how often the clause "batch reads agree with point reads" has something to compare: a
+// GetBatch item and a Get of one key with only reads between them ("pair"), and what kind of row the
+// key held by the reference clock (written with a TTL and still live / expired but not yet seen by a
+// cleaner run / plain / absent). Computed from the executed history (o.Out is set).
+func pairTags(h *History) []string {
+	type key struct{ pk, cc string }
+	exp := map[key]int64{} // 0 = plain row, >0 = expiry (ms); absent = no row
+	var now, lastClean int64
+	nextClean := int64(3600000)
+	gets, batch := map[key]bool{}, map[key]bool{}
+	tags := map[string]bool{}
+	pair := func(k key) {
+		tags["pair"] = true
+		e, ok := exp[k]
+		switch {
+		case !ok:
+			tags["pair:absent"] = true
+		case e == 0:
+			tags["pair:plain"] = true
+		case now < e:
+			tags["pair:ttl-live"] = true
+		case lastClean < e:
+			tags["pair:ttl-expired-uncleaned"] = true
+		default:
+			tags["pair:ttl-expired"] = true
+		}
+	}
+	for _, o := range h.Ops {
+		k := key{o.PK, o.CC}
+		switch o.Op {
+		case "Get":
+			if batch[k] {
+				pair(k)
+			}
+			gets[k] = true
+			continue
+		case "GetBatch":
+			for _, c := range o.CCs {
+				if gets[key{o.PK, c}] {
+					pair(key{o.PK, c})
+				}
+				batch[key{o.PK, c}] = true
+			}
+			continue
+		case "Read", "TTLGet", "TTLRead", "QueryTTL":
+			continue
+		}
+		gets, batch = map[key]bool{}, map[key]bool{}
+		switch o.Op {
+		case "Put":
+			exp[k] = 0
+		case "PutBatch":
+			if o.Out == "RUnit" {
+				for _, it := range o.Items {
+					exp[key{it[0], it[1]}] = 0
+				}
+			}
+		case "Ins", "Cas":
+			if o.Out == "RBool true" {
+				exp[k] = 0
+				if o.TTL > 0 {
+					exp[k] = now + int64(o.TTL)*1000
+				}
+			}
+		case "Cad":
+			if o.Out == "RBool true" {
+				delete(exp, k)
+			}
+		case "Advance":
+			now += o.Ms
+			if nextClean <= now { // bbolt's hourly cleaner, as modelled (mem has none)
+				lastClean, nextClean = now, now+3600000
+			}
+		}
+	}
+	var tl []string
+	for t := range tags {
+		tl = append(tl, t)
+	}
+	return tl
+}
+
 func genHistory(r *kit.Rng, backend string) *History { return GenHistory(r, backend, Default) }
 
 // GenHistory generates one history over the given alphabets
